@@ -377,6 +377,13 @@ def d3_d4(ctx, rep):
                           f'{s.what} writes the global generator state outside utils.set_random_state')
             elif s.kind == 'entropy':
                 rep.bad('D3.state', fn, s.call, f'{s.what} is a second entropy source: output is no longer a function of the seed')
+            elif s.kind == 'private-stream':
+                rep.bad('D3.state', fn, s.call, f'{s.what}: what is drawn from it advances neither the model\'s stream nor the global one (successive calls repeat), '
+                        'or does not follow the seed at all', construct=f'{fn.node.name}: no generator besides the scoped global one')
+            elif s.kind == 'model-stream':
+                rep.bad('D3.state', fn, s.call, f'{s.what} outside utils.set_random_state: the model\'s stream is advanced in place by something other than sampling '
+                        '(a RandomState shared with the caller or another model moves too), so equal models with equal seeds no longer give equal streams',
+                        construct=f'{fn.node.name}: model stream used only through the context manager')
             else:
                 n_sites += 1
     rep.floor('D3.scope', 'RNG-consuming call sites in the package', n_sites, 1)
